@@ -128,7 +128,7 @@ def check_pin(ctx, inst="C08.pin"):
     er = ctx.prog.const("record::EXTENT_READERS")
     ctx.check(ex and er and ex.get("val") == 1 << 31 and er.get("val") == (1 << 31) - 1, inst, "PIN", "core::record", "retired bit and reader mask partition the word", None)
     R.fieldw_within(ctx, inst + "/state-writers", "Record", "extent_state",
-                    ["Record::new", "Record::new_from_bytes", "Record::new_deferred_with_ttl", "Record::acquire_extent", "Record::retire_extent"], floor=5)
+                    ["Record::new", "Record::new_from_bytes", "Record::new_deferred_with_ttl", "Record::acquire_extent", "Record::retire_extent"], floor=3)   # acquire + retire + at least one constructor
     R.callers_within(ctx, inst + "/readers", "DiskIO::read_sectors_sync",
                      ["FeoxStore::load_value_from_disk", "write_buffer::prepare_deferred_record_data", "RecoveryScanner::fill_at",
                       "DiskIO::read_allocation_journal", "DiskIO::read_metadata"], floor=5)
